@@ -65,7 +65,7 @@ def step (st : DSt) (n : Nat) (ln : Line) : DSt × List String :=
     let fdiff := match forced with
       | some s => if implStage == s then ["COV grow.forced-" ++ s] else [s!"DIFF {n} grow {ln.args} model: every oracle gives err {s}; impl={o}"]
       | none => []
-    let fam := (List.range 64).map fun i => findEmptySlots st.tree op (oracleOf (n * 131 + i) 64)
+    let fam := (List.range 40).map fun i => findEmptySlots st.tree op (oracleOf (n * 131 + i) 64)
     match o with
     | "ok" :: ps =>
       let servers := ps.map pPath
